@@ -73,7 +73,6 @@ Proof.
   destruct (ctor_node_blank _ _ _ _ Ec) as [(Bl & Bi & Bt & Btp) Bpar].
   set (early := if valid_child_name (Some cname) (Some (unbs "VARIES")) && negb (cls_eqb (n_cls (getn s p)) CSeg)
                 then None else n_name nd).
-  destruct (negb (opt_eqb early (n_name nd))) eqn:Er; cbn [andb negb]; [exact HK|].
   rewrite mbind_run.
   assert (Bn : blank (with_name nd early)) by (repeat split; auto).
   pose proof (alloc_spec U B Fnone (with_name nd early) s (conj HK (conj (frame_none s) Bn))) as H.
@@ -97,7 +96,8 @@ Proof.
       pose proof (add_spec t U B' p r s1 (conj HK2 HA)) as H'. step_with H'; [exact H'|]. now apply K_untrack in H'. }
   destruct ((if trav then set_tparent_raw r (Some p);; add t p r else point_to r p;; add t p r)%heap s0) as [s1 [[]|x]];
     [|exact Hattach].
-  cbn [mbind ret]. apply K_untrack in Hattach. exact Hattach.
+  apply K_untrack in Hattach. rewrite mbind_run.
+  destruct (negb (opt_eqb early (n_name nd))); cbn [raise ret]; [apply Hattach|exact Hattach].
 Qed.
 
 Lemma parse_child_spec U B p cn cr text :
@@ -320,6 +320,368 @@ Proof.
   destruct H as (H1 & H2 & H3). rewrite mbind_run.
   pose proof (proxy_element_spec U (fun d => B d \/ d = x) (fst r) (snd r) s0 (conj (K_track U B s0 x H1 H2) H3)) as H.
   step_with H; [|now apply K_untrack in H]. destruct H as (H4 & _). now apply K_untrack in H4.
+Qed.
+
+(* ---------- attribute assignment ---------- *)
+
+Definition pos_shaped (name : str) : bool :=
+  match split_us (upper name) with _ :: _ :: _ :: _ => true | _ => false end.
+Lemma positional_unshaped P name : pos_shaped name = false -> positional t P name = Err (HL7 EChildNotFound).
+Proof.
+  unfold pos_shaped, positional. destruct (split_us (upper name)) as [|a [|b [|c r]]]; try reflexivity. discriminate.
+Qed.
+Definition velem_plain (v : value) (name : str) : Prop :=
+  match v with VElem _ => pos_shaped name = false | _ => True end.
+Lemma vok_stateless U s s' v : (match v with VElem _ => False | _ => True end) -> vok U s v -> vok U s' v.
+Proof. destruct v; cbn; tauto. Qed.
+
+Lemma set_attr_spec U B x name v :
+  spec (set_attr t e le false x name v) (fun s => K U B s /\ x < s_next s /\ vok U s v /\ velem_plain v name)
+       (fun _ s => K U B s /\ x < s_next s) (K U B).
+Proof.
+  intros s (HK & Hx & Hv & Hpl). unfold set_attr. cbn [mbind node_of].
+  destruct (n_cls (getn s x)); try now apply (set_child_spec' U B x name v 0 s).
+  unfold mcatch.
+  pose proof (set_child_spec' U (fun d => B d \/ d = x) x name v 0 s
+                (conj (K_track U B s x HK Hx) (conj Hx Hv))) as H.
+  step_with H; [destruct H as [H H']; apply K_untrack in H; tauto|].
+  destruct (is_cnf x0); [|now apply K_untrack in H].
+  apply K_untrack in H. destruct H as [H1 Hx1]. cbn [mbind node_of lift].
+  destruct v as [txt|c|o pn|dt txt].
+  - destruct (positional t (getn s0 x) name) as [[cn sub]|ex]; [|exact H1]. cbn [mbind].
+    destruct sub as [k|].
+    + rewrite mbind_run.
+      pose proof (get_proxy_spec U B x name s0 (conj H1 Hx1)) as H. step_with H; [|exact H].
+      destruct H as (H2 & H3 & H4). destruct r as [c pn]. cbn [fst] in H4.
+      pose proof (set_child_spec' U (fun d => B d \/ d = x) c pn (VText txt) 0 s1
+                    (conj (K_track U B s1 x H2 H3) (conj H4 I))) as H.
+      step_with H.
+      * destruct H as [H H']. apply K_untrack in H. exact H.
+      * destruct (is_cnf x1); cbn [raise]; now apply K_untrack in H.
+    + now apply (set_child_spec' U B x cn (VText txt) 0 s0).
+  - cbn in Hpl. rewrite (positional_unshaped _ _ Hpl). exact H1.
+  - destruct (positional t (getn s0 x) name) as [[cn sub]|ex]; [|exact H1]. cbn [mbind].
+    destruct sub as [k|].
+    + rewrite mbind_run.
+      pose proof (get_proxy_spec U B x name s0 (conj H1 Hx1)) as H. step_with H; [|exact H].
+      destruct H as (H2 & H3 & H4). destruct r as [c pn']. cbn [fst] in H4.
+      pose proof (set_child_spec' U (fun d => B d \/ d = x) c pn' (VProxy o pn) 0 s1
+                    (conj (K_track U B s1 x H2 H3) (conj H4 I))) as H.
+      step_with H.
+      * destruct H as [H H']. apply K_untrack in H. exact H.
+      * destruct (is_cnf x1); cbn [raise]; now apply K_untrack in H.
+    + now apply (set_child_spec' U B x cn (VProxy o pn) 0 s0).
+  - destruct Hv.
+Qed.
+
+Lemma write_chain_spec U B x names v :
+  spec (write_chain t e le false x names v)
+       (fun s => K U B s /\ x < s_next s /\ vok U s v /\ velem_plain v (last names []))
+       (fun _ s => K U B s /\ x < s_next s) (K U B).
+Proof.
+  intros s (HK & Hx & Hv & Hpl0). unfold write_chain.
+  destruct (rev names) as [|lastn front] eqn:Er; [exact HK|].
+  assert (Hpl : velem_plain v lastn).
+  { assert (E : names = rev front ++ [lastn]) by (rewrite <- (rev_involutive names), Er; reflexivity).
+    rewrite E in Hpl0. now rewrite last_last in Hpl0. }
+  clear Hpl0.
+  destruct front as [|f front'].
+  - apply (set_attr_spec U B x lastn v s). auto.
+  - rewrite mbind_run.
+    (* the element handed in must stay a candidate while the chain is walked *)
+    destruct v as [txt|c|o pn|dt txt].
+    + pose proof (read_chain_spec U B x (rev (f :: front')) s (conj HK Hx)) as H. step_with H; [|exact H].
+      destruct H as (H1 & H2 & H3). rewrite mbind_run.
+      pose proof (proxy_element_spec U (fun d => B d \/ d = x) (fst r) (snd r) s0 (conj (K_track U B s0 x H1 H2) H3)) as H.
+      step_with H; [|now apply K_untrack in H]. destruct H as (H4 & _ & H6).
+      pose proof (set_attr_spec U (fun d => B d \/ d = x) r0 lastn (VText txt) s1 (conj H4 (conj H6 (conj I I)))) as H.
+      step_with H; [|now apply K_untrack in H]. destruct H as [H _]. now apply K_untrack in H.
+    + destruct Hv as [NU Hc].
+      set (U' := fun d => U d \/ d = c).
+      pose proof (read_chain_spec U' B x (rev (f :: front')) s (conj (K_addU U B s c HK Hc) Hx)) as H.
+      step_with H; [|now apply K_dropU in H].
+      destruct H as (H1 & H2 & H3). rewrite mbind_run.
+      pose proof (proxy_element_spec U' (fun d => B d \/ d = x) (fst r) (snd r) s0 (conj (K_track U' B s0 x H1 H2) H3)) as H.
+      step_with H; [|apply K_untrack in H; destruct H as [H _]; now apply K_dropU in H]. destruct H as (H4 & _ & H6).
+      pose proof (cand_unfold U' _ s1 c H4 (or_intror eq_refl)) as Hc1.
+      apply K_dropU in H4.
+      pose proof (set_attr_spec U (fun d => B d \/ d = x) r0 lastn (VElem c) s1
+                    (conj H4 (conj H6 (conj (conj NU Hc1) Hpl)))) as H.
+      step_with H; [|now apply K_untrack in H]. destruct H as [H _]. now apply K_untrack in H.
+    + pose proof (read_chain_spec U B x (rev (f :: front')) s (conj HK Hx)) as H. step_with H; [|exact H].
+      destruct H as (H1 & H2 & H3). rewrite mbind_run.
+      pose proof (proxy_element_spec U (fun d => B d \/ d = x) (fst r) (snd r) s0 (conj (K_track U B s0 x H1 H2) H3)) as H.
+      step_with H; [|now apply K_untrack in H]. destruct H as (H4 & _ & H6).
+      pose proof (set_attr_spec U (fun d => B d \/ d = x) r0 lastn (VProxy o pn) s1 (conj H4 (conj H6 (conj I I)))) as H.
+      step_with H; [|now apply K_untrack in H]. destruct H as [H _]. now apply K_untrack in H.
+    + destruct Hv.
+Qed.
+
+(* ---------- datatype and value ---------- *)
+
+Lemma restructure_spec U B X x dt : spec (restructure t X x dt) (K U B) (fun _ s => K U B s) (K U B).
+Proof.
+  intros s HK. unfold restructure. destruct (_ && _ && _ && _ && _); [|exact HK].
+  destruct dt as [d|]; [|exact HK]. destruct (n_st X) as [st|]; [|exact HK].
+  destruct (has_struct t d); cbn [negb]; [|exact HK]. cbn [mbind lift].
+  match goal with |- context [match ?r with Ok a => _ | Err x0 => (s, Err x0) end] => destruct r as [st'|ex] end;
+    [|exact HK].
+  now apply (set_st_spec U B x _ s).
+Qed.
+
+Lemma set_datatype_spec U B fuel : forall x dt,
+  spec (set_datatype t fuel x dt) (K U B) (fun _ s => K U B s) (K U B).
+Proof.
+  induction fuel as [|f IH]; intros x dt s HK; cbn [set_datatype]; [exact HK|].
+  cbn [mbind node_of].
+  assert (Complex : forall s0, K U B s0 ->
+            match (let! X := node_of x in
+                   match n_list X with
+                   | [] => set_dt x dt
+                   | c0 :: _ => if base t (n_dt X) then set_dt x dt;; (if base t dt then set_datatype t f c0 dt else ret tt)
+                                else raise (HL7 EOperationNotAllowed)
+                   end)%heap s0 with (s', Ok _) => K U B s' | (s', Err _) => K U B s' end).
+  { intros s0 H0. cbn [mbind node_of]. destruct (n_list (getn s0 x)) as [|c0 l]; [now apply (set_dt_spec U B x dt s0)|].
+    destruct (base t (n_dt (getn s0 x))); [|exact H0]. rewrite mbind_run.
+    pose proof (set_dt_spec U B x dt s0 H0) as H. step_with H; [|exact H].
+    destruct (base t dt); [now apply IH|exact H]. }
+  destruct (n_cls (getn s x)).
+  - exact HK.
+  - destruct (_ && _ && _); [exact HK|]. rewrite mbind_run.
+    pose proof (restructure_spec U B (getn s x) x dt s HK) as H. step_with H; [|exact H]. now apply Complex.
+  - destruct (_ && _ && _); [exact HK|]. rewrite mbind_run.
+    pose proof (restructure_spec U B (getn s x) x dt s HK) as H. step_with H; [|exact H]. now apply Complex.
+  - (* SubComponent *)
+    destruct (_ && _); [exact HK|]. destruct (_ && _ && _); [exact HK|].
+    destruct (negb _); [exact HK|]. rewrite mbind_run.
+    assert (Hp : match (match n_parent (getn s x) with
+                        | Some q => (let! Q := node_of q in
+                                     if base t (n_dt Q) && negb (opt_eqb (n_dt Q) dt) then set_datatype t f q dt else ret tt)%heap
+                        | None => ret tt end) s with (s', Ok _) => K U B s' | (s', Err _) => K U B s' end).
+    { destruct (n_parent (getn s x)) as [q|]; [|exact HK]. cbn [mbind node_of].
+      destruct (_ && _); [now apply IH|exact HK]. }
+    match type of Hp with match ?m with _ => _ end => destruct m as [s1 [[]|ex]] end; [|exact Hp].
+    now apply (set_dt_spec U B x dt s1).
+Qed.
+
+Definition Uplus (U : nat -> Prop) (l : list nat) : nat -> Prop := fun d => U d \/ In d l.
+
+Lemma alloc_all_spec {A} (f : A -> M nat) (l : list A) :
+  (forall U B x, spec (f x) (K U B) (fresh_post U B) (K U B)) ->
+  forall U B,
+  spec (alloc_all f l) (K U B)
+       (fun ids s => K (Uplus U ids) B s /\ NoDup ids /\ forall i, In i ids -> ~ U i) (K U B).
+Proof.
+  intros Hf. induction l as [|x l IH]; intros U B s HK; cbn [alloc_all].
+  - cbn [ret]. split; [|split; [constructor|intros i []]].
+    eapply K_weaken; [| |exact HK]; auto. intros d [Hd|[]]. exact Hd.
+  - rewrite mbind_run. pose proof (Hf U B x s HK) as H. step_with H; [|exact H].
+    destruct H as (H1 & NU & Hc). rewrite mbind_run.
+    pose proof (IH (fun d => U d \/ d = r) B s0 (K_addU U B s0 r H1 Hc)) as H. step_with H; [|now apply K_dropU in H].
+    destruct H as (H2 & ND & Hn). cbn [ret]. split; [|split].
+    + eapply K_weaken; [| |exact H2]; auto. unfold Uplus. intros d [Hd|[<-|Hd]]; auto.
+    + constructor; auto. intros Hin. apply (Hn _ Hin). now right.
+    + intros i [<-|Hi]; auto. intros Hu. apply (Hn _ Hi). now left.
+Qed.
+
+Lemma add_all_spec U B x ids :
+  spec (add_all t x ids) (fun s => K (Uplus U ids) B s /\ NoDup ids /\ forall i, In i ids -> ~ U i)
+       (fun _ s => K U B s) (K U B).
+Proof.
+  revert U. induction ids as [|c ids IH]; intros U s (HK & ND & Hn); cbn [add_all].
+  - cbn [ret]. eapply K_weaken; [| |exact HK]; auto. intros d Hd. now left.
+  - rewrite mbind_run. inversion ND; subst.
+    assert (Hc : cand s c) by (destruct HK as (_ & C & _); apply C; right; now left).
+    assert (NUc : ~ Uplus U ids c) by (intros [Hu|Hi]; [apply (Hn c); auto; now left|contradiction]).
+    assert (HK' : K (Uplus U ids) B s).
+    { eapply K_weaken; [| |exact HK]; auto. intros d [Hd|Hd]; [now left|right; now right]. }
+    pose proof (add_spec t (Uplus U ids) B x c s (conj HK' (cand_addable _ s c x NUc Hc))) as H.
+    step_with H.
+    + apply IH. split; [exact H|split; auto]. intros i Hi. apply Hn. now right.
+    + eapply K_weaken; [| |exact H]; auto. intros d Hd. now left.
+Qed.
+
+Lemma do_reset_children_spec U B x : spec (do_reset_children x) (K U B) (fun _ s => K U B s) (K U B).
+Proof.
+  apply spec_modify. intros s HK.
+  apply K_set_children; [exact HK|constructor|intros c []|intros k; reflexivity| |intros d Hd; split; intros []].
+  split; [constructor|split]; [intros k l c []|intros k l []].
+Qed.
+
+Lemma set_value_spec U B x text :
+  spec (set_value t e le x text) (fun s => K U B s /\ x < s_next s) (fun _ s => K U B s /\ x < s_next s) (K U B).
+Proof.
+  intros s (HK & Hx). unfold set_value. cbn [mbind node_of].
+  pose proof (K_track U B s x HK Hx) as HK'. set (B' := fun d => B d \/ d = x) in *.
+  assert (W : forall s', K U B' s' -> K U B s' /\ x < s_next s') by (intros s'; apply K_untrack).
+  destruct (n_cls (getn s x)).
+  - exact HK.
+  - (* Field *)
+    cbn [mbind lift]. destruct (parse_components _ _ _ _ _ _ _) as [kids|ex]; [|exact HK]. cbn [mbind].
+    rewrite mbind_run.
+    match goal with |- context [(if ?b then ?m1 else ?m2) s] =>
+      assert (Hd : match (if b then m1 else m2) s with (s', Ok _) => K U B' s' | (s', Err _) => K U B s' end) end.
+    { destruct (_ && _ && _); [|exact HK'].
+      pose proof (set_datatype_spec U B' 3 x None s HK') as H. step_with H; [exact H|now apply W in H]. }
+    match goal with |- context [(if ?b then ?m1 else ?m2) s] => destruct ((if b then m1 else m2) s) as [s1 [[]|ex]] end;
+      [|exact Hd].
+    rewrite mbind_run.
+    pose proof (alloc_all_spec (alloc_comp t (n_lvl (getn s x)) None) kids
+                  (fun U0 B0 x0 => alloc_comp_spec t U0 B0 (n_lvl (getn s x)) x0) U B' s1 Hd) as H.
+    step_with H; [|now apply W in H]. destruct H as (H1 & ND & Hn). rewrite mbind_run.
+    pose proof (do_reset_children_spec (Uplus U r) B' x s0 H1) as H. step_with H.
+    2:{ apply W. eapply K_weaken; [| |exact H]; auto. intros d Hd'. now left. }
+    pose proof (add_all_spec U B' x r s2 (conj H (conj ND Hn))) as H'. step_with H'; now apply W in H'.
+  - (* Component *)
+    cbn [mbind lift]. destruct (parse_subcomponents _ _ _ _ _ _ _) as [kids|ex]; [|exact HK]. cbn [mbind].
+    rewrite mbind_run.
+    match goal with |- context [(if ?b then ?m1 else ?m2) s] =>
+      assert (Hd : match (if b then m1 else m2) s with (s', Ok _) => K U B' s' | (s', Err _) => K U B s' end) end.
+    { destruct (_ && _ && _); [|exact HK'].
+      pose proof (set_datatype_spec U B' 3 x None s HK') as H. step_with H; [exact H|now apply W in H]. }
+    match goal with |- context [(if ?b then ?m1 else ?m2) s] => destruct ((if b then m1 else m2) s) as [s1 [[]|ex]] end;
+      [|exact Hd].
+    rewrite mbind_run.
+    pose proof (alloc_all_spec (alloc_sub t (n_lvl (getn s x)) None) kids
+                  (fun U0 B0 x0 => alloc_sub_spec t U0 B0 (n_lvl (getn s x)) x0) U B' s1 Hd) as H.
+    step_with H; [|now apply W in H]. destruct H as (H1 & ND & Hn). rewrite mbind_run.
+    pose proof (do_reset_children_spec (Uplus U r) B' x s0 H1) as H. step_with H.
+    2:{ apply W. eapply K_weaken; [| |exact H]; auto. intros d Hd'. now left. }
+    pose proof (add_all_spec U B' x r s2 (conj H (conj ND Hn))) as H'. step_with H'; now apply W in H'.
+  - (* SubComponent *)
+    destruct text as [|b text].
+    + rewrite mbind_run. pose proof (set_val_spec U B' x [] [] s HK') as H. step_with H; [|now apply W in H].
+      pose proof (to_traversal_spec t U B' FUEL x s0 (conj H (K_B _ _ _ _ H (or_intror eq_refl)))) as H'.
+      step_with H'; now apply W in H'.
+    + cbn [mbind lift]. destruct (le _ _ _) as [enc|ex]; [|exact HK]. cbn [mbind]. rewrite mbind_run.
+      pose proof (set_val_spec U B' x (b :: text) enc s HK') as H. step_with H; [|now apply W in H].
+      pose proof (to_traversal_spec t U B' FUEL x s0 (conj H (K_B _ _ _ _ H (or_intror eq_refl)))) as H'.
+      step_with H'; now apply W in H'.
+Qed.
+
+Lemma write_value_spec U B x names text :
+  spec (write_value t e le false x names text) (fun s => K U B s /\ x < s_next s)
+       (fun _ s => K U B s /\ x < s_next s) (K U B).
+Proof.
+  intros s (HK & Hx). unfold write_value. rewrite mbind_run.
+  pose proof (read_chain_spec U B x names s (conj HK Hx)) as H. step_with H; [|exact H].
+  destruct H as (H1 & H2 & H3). rewrite mbind_run.
+  pose proof (proxy_element_spec U (fun d => B d \/ d = x) (fst r) (snd r) s0 (conj (K_track U B s0 x H1 H2) H3)) as H.
+  step_with H; [|now apply K_untrack in H]. destruct H as (H4 & _ & H6). rewrite mbind_run.
+  pose proof (K_track U _ s1 r0 H4 H6) as H7.
+  pose proof (to_traversal_spec t U _ FUEL r0 s1 (conj H7 H6)) as H. step_with H.
+  2:{ apply K_untrack in H. destruct H as [H _]. now apply K_untrack in H. }
+  pose proof (set_value_spec U _ r0 text s2 (conj H (K_B _ _ _ _ H (or_intror eq_refl)))) as H'.
+  step_with H'.
+  - destruct H' as [H' _]. apply K_untrack in H'. destruct H' as [H' _]. now apply K_untrack in H'.
+  - apply K_untrack in H'. destruct H' as [H' _]. now apply K_untrack in H'.
+Qed.
+
+(* ---------- deletion ---------- *)
+
+Lemma remove_child_K U B p c : spec (remove_child p c) (K U B) (fun _ s => K U B s) (K U B).
+Proof.
+  intros s HK.
+  pose proof (remove_child_spec U B p c (n_list (getn s p)) (fun d => n_name (getn s d))
+                (oid_eqb (n_tparent (getn s c)) p) s (conj HK (conj eq_refl (conj (fun d => eq_refl) eq_refl)))) as H.
+  step_with H; [apply H|exact H].
+Qed.
+
+Lemma firstn_skipn_remove1 (l : list nat) i c :
+  NoDup l -> nth_error l i = Some c -> firstn i l ++ skipn (S i) l = remove1 c l.
+Proof.
+  revert i. induction l as [|a l IH]; intros [|i] D; cbn; try discriminate.
+  - intros [= ->]. now rewrite Nat.eqb_refl.
+  - intros H. inversion D; subst. destruct (Nat.eqb_spec c a) as [->|N].
+    + exfalso. apply H2. eapply nth_error_In; eauto.
+    + f_equal. now apply IH.
+Qed.
+
+Lemma K_removed U B s p c :
+  K U B s ->
+  K U B (setn s p (with_children (getn s p) (remove1 c (n_list (getn s p)))
+                                 (idx_removed (n_name (getn s c)) c (n_idx (getn s p))) (n_tidx (getn s p)))).
+Proof.
+  intros HK. pose proof HK as (I & C & D). set (P := getn s p). set (k := n_name (getn s c)).
+  apply K_set_children; auto.
+  - apply NoDup_remove1. apply (I_nodup s I).
+  - intros d Hd. apply In_remove1 in Hd. now apply old_member_ok.
+  - intros k'. rewrite filter_remove1. unfold idx_removed.
+    assert (G : iget k' (if ihas k (n_idx P) then iset k (remove1 c (iget k (n_idx P))) (n_idx P) else n_idx P)
+                = if opt_eqb k' k then remove1 c (iget k (n_idx P)) else iget k' (n_idx P)).
+    { destruct (ihas k (n_idx P)) eqn:Eh; [apply iget_iset|].
+      destruct (opt_eqb_spec k' k) as [E|]; auto. rewrite E. now rewrite (ihas_false_iget _ _ Eh). }
+    rewrite G. unfold name_is at 1. fold k. fold P.
+    destruct (opt_eqb_spec k' k) as [E|N]; [rewrite E|].
+    + unfold P. now rewrite (I_index s I).
+    + unfold P. apply (I_index s I).
+  - apply tidx_ok_list with (l := n_list P); [apply (I_trav s I)|].
+    intros d Hd Hin. apply In_remove1 in Hin. apply In_members in Hd. destruct Hd as (k0 & l1 & A & A').
+    destruct (I_trav s I p) as (_ & T & _). destruct (T k0 l1 d A A') as (_ & X & _). tauto.
+  - intros d Hd. destruct (C d Hd) as (Hu & _ & _ & X). split; [|apply X].
+    intros Hin. apply In_remove1 in Hin. apply (Hu p Hin).
+Qed.
+
+Lemma del_list_index_spec U B x i : spec (del_list_index x i) (K U B) (fun _ s => K U B s) (K U B).
+Proof.
+  intros s HK. unfold del_list_index. cbn [mbind node_of].
+  destruct (nth_error (n_list (getn s x)) i) as [c|] eqn:En; [|exact HK].
+  rewrite mbind_run. unfold do_rm_idx, modify. cbv beta iota.
+  eapply K_ext; [|apply (K_removed U B s x c HK)].
+  split; [reflexivity|]. intros j. rewrite !getn_setn. rewrite !Nat.eqb_refl.
+  destruct (Nat.eqb j x); [|reflexivity]. cbn [n_list n_idx n_tidx with_children].
+  rewrite (firstn_skipn_remove1 _ i c); auto. apply (I_nodup s (K_Inv _ _ _ HK)).
+Qed.
+
+Lemma del_child_spec U B x name : spec (del_child t x name) (K U B) (fun _ s => K U B s) (K U B).
+Proof.
+  intros s HK. unfold del_child, child_at_index. rewrite !mbind_run. cbn [node_of lift]. rewrite !mbind_run. cbn [lift].
+  destruct (fcr t (getn s x) (upper name)) as [[cn cr]|ex]; [|exact HK].
+  destruct (streqb cn name); cbn [ret].
+  - destruct (finder _ _ _) as [c|]; [now apply (remove_child_K U B x c s)|exact HK].
+  - destruct (finder _ _ _) as [c|]; [now apply (remove_child_K U B x c s)|exact HK].
+Qed.
+
+Lemma del_attr_spec U B x name :
+  spec (del_attr t le false x name) (fun s => K U B s /\ x < s_next s) (fun _ s => K U B s) (K U B).
+Proof.
+  intros s (HK & Hx). unfold del_attr. cbn [mbind node_of].
+  destruct (n_cls (getn s x)); try now apply (del_child_spec U B x name s).
+  unfold mcatch.
+  pose proof (del_child_spec U (fun d => B d \/ d = x) x name s (K_track U B s x HK Hx)) as H.
+  step_with H; [now apply K_untrack in H|].
+  apply K_untrack in H. destruct H as [H1 Hx1].
+  destruct (is_cnf x0); [|exact H1]. cbn [mbind node_of lift].
+  destruct (positional t (getn s0 x) name) as [[cn sub]|ex]; [|exact H1]. cbn [mbind].
+  destruct sub as [k|]; [|now apply (del_child_spec U B x cn s0)].
+  rewrite mbind_run.
+  pose proof (get_proxy_spec U B x name s0 (conj H1 Hx1)) as H. step_with H; [|exact H].
+  destruct H as (H2 & _ & _). destruct r as [c pn].
+  pose proof (del_child_spec U B c pn s1 H2) as H. step_with H; [exact H|].
+  destruct (is_cnf x1); exact H.
+Qed.
+
+Lemma add_helper_spec U B x name :
+  spec (add_helper t le false x name) (fun s => K U B s /\ x < s_next s)
+       (fun c s => K U B s /\ c < s_next s) (K U B).
+Proof.
+  intros s (HK & Hx). unfold add_helper. cbn [mbind node_of].
+  assert (G : match create_element t le false x name false None s with
+              | (s', Ok c) => K U B s' /\ c < s_next s' | (s', Err _) => K U B s' end).
+  { pose proof (create_element_spec' U B x name false None s (conj HK Hx)) as H. step_with H; tauto. }
+  destruct (n_cls (getn s x)); auto. destruct (_ && _); auto.
+Qed.
+
+Lemma set_list_index_spec U B x i v :
+  spec (set_list_index t e le false x i v) (fun s => K U B s /\ x < s_next s /\ vok U s v)
+       (fun _ s => K U B s /\ x < s_next s) (K U B).
+Proof.
+  intros s (HK & Hx & Hv). unfold set_list_index. cbn [mbind node_of].
+  destruct (nth_error (n_list (getn s x)) i) as [c|]; [|exact HK]. cbn [mbind node_of].
+  destruct (ihas _ _); cbn [negb]; [|exact HK].
+  destruct (index_of c _) as [bi|]; [|exact HK].
+  destruct (n_name (getn s c)) as [nm|]; [|exact HK].
+  now apply (set_child_spec' U B x nm v bi s).
 Qed.
 
 End Steps.
